@@ -56,6 +56,11 @@ func encodeFunction(w *World, fn *ssa.Function, dropped map[string]bool) (e *Enc
 	fr.isTop = true
 	e.topFrame = fr
 	st := &State{m: map[string]*Term{}}
+	// ghost classes exist from the start (a class created lazily after a merge of havocked and
+	// un-havocked paths would lose its entry value)
+	e.get(st, "ghost:sends", Arr(RefS, BV64))
+	e.get(st, "ghost:metric", Arr(RefS, BV64))
+	e.get(st, "ghost:hash#st", Arr(RefS, IntS))
 	e.entry = st
 	e.cur = st
 	if fn.Name() != "init" {
@@ -65,7 +70,9 @@ func encodeFunction(w *World, fn *ssa.Function, dropped map[string]bool) (e *Enc
 	}
 	var args []*SVal
 	for _, p := range fn.Params {
+		e.deepPre = true
 		v := e.symVal(p.Name(), p.Type())
+		e.deepPre = false
 		nilable := false
 		if ct := w.Contracts[fn]; ct != nil && ct.Options["nilable:"+p.Name()] {
 			nilable = true // "option nilable:<param>": the parameter may be nil
